@@ -5,6 +5,8 @@ every scheduling point at which at least one call is in flight - blocked in
 queue.join(), inside the worker-pool creation loop (every instruction of that
 code is a point), or anywhere in between.
 """
+import os
+
 from .. import common, e1, e1prop, e1run, engine, planh
 from ..e1prop import PLAN
 
@@ -177,16 +179,112 @@ def fail_release_cfgs(tier):
     return out
 
 
+# --------------------------------------------------------------------------
+# conformance of the injected interrupt with a real SIGINT (unmodified threading, separate process)
+# --------------------------------------------------------------------------
+
+_SIGNAL_SCRIPT = r'''
+import json, os, signal, sys, threading, time
+import uberjob
+N, K, W, SCHED = int(sys.argv[1]), int(sys.argv[2]), int(sys.argv[3]), sys.argv[4]
+log = []
+lock = threading.Lock()
+def make(i):
+    def f(*a):
+        with lock:
+            log.append(("start", i, time.monotonic()))
+        if i == K:
+            os.kill(os.getpid(), signal.SIGINT)   # Ctrl-C while this call (and maybe others) is in flight
+        time.sleep(0.05)
+        with lock:
+            log.append(("end", i, time.monotonic()))
+        return i
+    f.__name__ = "f%d" % i
+    return f
+plan = uberjob.Plan()
+calls = []
+for i in range(N):
+    # chains of 3 so that completed calls keep making new work ready
+    calls.append(plan.call(make(i), *( [calls[i - 3]] if i >= 3 else [] )))
+before = set(threading.enumerate())
+res = "ret"
+t0 = time.monotonic()
+try:
+    uberjob.run(plan, output=calls, max_workers=W, scheduler=SCHED, progress=None)
+except KeyboardInterrupt:
+    res = "KeyboardInterrupt"
+except BaseException as e:
+    res = "other:" + type(e).__name__
+t1 = time.monotonic()
+left = [t.name for t in threading.enumerate() if t not in before and t.is_alive()]
+time.sleep(0.3)
+with lock:
+    late = [e for e in log if e[2] > t1]
+    started = [e[1] for e in log if e[0] == "start"]
+    ended = [e[1] for e in log if e[0] == "end"]
+print(json.dumps({"res": res, "left": left, "late": len(late), "started": started, "ended": ended, "secs": t1 - t0}))
+'''
+
+
+def signal_conformance(tier):
+    """Real SIGINT, real threads: only the timing-robust clauses are checked."""
+    import json
+    import subprocess
+    import sys
+
+    viols = []
+    runs = 0
+    cases = [(12, 1, 2, "default"), (12, 4, 3, "default"), (12, 0, 1, "default"), (12, 5, 2, "random")]
+    if tier != "quick":
+        cases += [(15, k, W, sc) for k in (0, 2, 7) for W in (1, 2, 4) for sc in ("default", "random")]
+    procs = []
+    env = dict(os.environ, PYTHONPATH=common.SRC)
+    for c in cases:
+        procs.append((c, subprocess.Popen([sys.executable, "-c", _SIGNAL_SCRIPT] + [str(x) for x in c], stdout=subprocess.PIPE, stderr=subprocess.PIPE, env=env, text=True)))
+    for c, p in procs:
+        runs += 1
+        key = f"real SIGINT N={c[0]} K={c[1]} W={c[2]} {c[3]}"
+        try:
+            out, err = p.communicate(timeout=60)
+        except subprocess.TimeoutExpired:
+            p.kill()
+            viols.append(common.Violation(PROP, key + " :: hang", f"{key}: run did not terminate within 60 s after a real SIGINT", {"engine": "signal", "case": list(c)}))
+            continue
+        try:
+            r = json.loads(out.strip().splitlines()[-1])
+        except Exception:  # noqa
+            viols.append(common.Violation(PROP, key + " :: crashed", f"{key}: subprocess failed: {err[-300:]}", {"engine": "signal", "case": list(c)}))
+            continue
+        msgs = []
+        if r["res"] != "KeyboardInterrupt":
+            msgs.append(f"run gave {r['res']} instead of KeyboardInterrupt")
+        if r["left"]:
+            msgs.append(f"threads still alive after run returned: {r['left']}")
+        if r["late"]:
+            msgs.append(f"{r['late']} call events happened after run returned")
+        if set(r["started"]) != set(r["ended"]):
+            msgs.append(f"calls {sorted(set(r['started']) - set(r['ended']))} were in flight and never finished")
+        if len(r["started"]) >= c[0]:
+            msgs.append("every remaining call was still run after the interrupt")
+        for m in msgs:
+            viols.append(common.Violation(PROP, key + " :: " + m[:40], f"{key}: {m}", {"engine": "signal", "case": list(c)}))
+    return viols, {"real_signal_runs": runs}
+
+
 def run(tier):
     engine.install_pool_bc_all()
     budget = {"preempt": 1, "interrupt": 1, "random": 1} if tier == "quick" else {"preempt": 2, "interrupt": 1, "random": 1}
     ex = [("interrupt at every point with a call in flight", FACTORY, cfgs(tier), budget),
           ("interrupt + a call failing after it + children becoming ready, random queue (<= 2 non-default draws)", FACTORY,
            fail_release_cfgs(tier), {"preempt": 0, "interrupt": 1, "random": 2, "yield": 2} if tier == "quick" else {"preempt": 1, "interrupt": 1, "random": 2, "yield": 1})]
-    res = e1prop.run(PROP, ex)
+    sv, scov = signal_conformance(tier)
+    res = e1prop.run(PROP, ex, extra_cov=scov, extra_viol=sv)
     return res
 
 
 def replay(rep):
+    if rep.get("engine") == "signal":
+        v, _ = signal_conformance("thorough")
+        return [x.message for x in v if x.replay["case"] == rep["case"]]
     engine.install_pool_bc_all()
     return e1prop.replay(PROP, rep)
